@@ -4,7 +4,9 @@ import random
 import sys
 
 sys.path.insert(0, os.path.dirname(os.path.abspath(__file__)))
-from core import Group  # noqa: E402
+from core import Group, StaticGroup  # noqa: E402
+import extract as X  # noqa: E402
+import re  # noqa: E402
 
 NF = 'numeric-functions.cpp'
 STD_ASSUME = [
@@ -304,6 +306,146 @@ def c01_groups(tier, tag='C01'):
     return gs
 
 
+GB = 'tfhe_gate_bootstrapping.cpp'
+AG = 'autogenerated.cpp'
+
+
+def c19_groups(tier, tag='C19'):
+    ex = [('tfhe_gate_bootstrapping_structures.cpp', 'TFheGateBootstrappingParameterSet::TFheGateBootstrappingParameterSet'),
+          ('lweparams.cpp', 'LweParams::LweParams'), ('tlwe.cpp', 'TLweParams::TLweParams'), ('tgsw.cpp', 'TGswParams::TGswParams')]
+    for T in ['LweParams', 'TLweParams', 'TGswParams']:
+        ex += [(AG, 'alloc_' + T), (AG, 'init_' + T), (AG, 'new_' + T)]
+    ex += [(GB, 'default_80bit_gate_bootstrapping_parameters'), (GB, 'default_128bit_gate_bootstrapping_parameters'),
+           (GB, 'new_default_gate_bootstrapping_parameters')]
+    return [Group(tag + '.selector', 'c19_params.c', 'h_params', extract=ex, unwind=5, timeout=900, replay='params')]
+
+
+MU = 'multiplication.cpp'
+
+
+def c11_groups(tier, tag='C11'):
+    gs = poly_cw_groups(tag) + poly_mono_groups(tag)
+    gs.append(Group(tag + '.lemma.monomial', 'lemmas.c', 'h_lemma_monomial', backend='cadical', timeout=1500,
+                    defines={'LEMMA_NMAX': 65536 if tier == 'quick' else (1 << 20)}))
+    for N in ([1, 2, 4, 8, 16] if tier == 'quick' else [1, 2, 4, 8, 16, 32, 64]):
+        gs.append(Group('%s.naive.bounded.N=%d' % (tag, N), 'c11_mult.c', 'h_b_naive', extract=[(MU, 'torusPolynomialMultNaive_aux')],
+                        defines={'H_NAIVE': None, 'VERIF_N': N}, unwind=2 * N + 2, bounded=True, timeout=1800, backend='z3',
+                        instance={'N': N}, replay=('mult', 'naive', N)))
+    for km, fn in [(0, 'torusPolynomialMultKaratsuba'), (1, 'torusPolynomialAddMulRKaratsuba'), (2, 'torusPolynomialSubMulRKaratsuba')]:
+        gs.append(Group('%s.%s.bounded.N=16' % (tag, fn), 'c11_mult.c', 'h_b_karatsuba',
+                        extract=[(MU, 'torusPolynomialMultNaive_plain_aux'), (MU, 'Karatsuba_aux'), (MU, fn)],
+                        defines={'H_KARA': None, 'VERIF_N': 16, 'KMODE': km}, unwind=34, bounded=True, timeout=1800, backend='z3',
+                        cbmc=['--memory-leak-check'], instance={'N': 16, 'inputs': 'basis pairs (X^i, c*X^j), c symbolic'}, replay=('mult', fn, 16)))
+    return gs
+
+
+# ---------------------------------------------------------------------------------------------- C15 / C16
+EVAL_FUNCTIONS = (
+    [(BG, g[0]) for g in GATES2] + [(BG, 'bootsMUX'), (BG, 'bootsNOT'), (BG, 'bootsCOPY'), (BG, 'bootsCONSTANT')]
+    + [(BF, f) for f in ('tfhe_MuxRotate_FFT', 'tfhe_blindRotate_FFT', 'tfhe_blindRotateAndExtract_FFT', 'tfhe_bootstrap_woKS_FFT', 'tfhe_bootstrap_FFT')]
+    + [(BN_, f) for f in ('tfhe_MuxRotate', 'tfhe_blindRotate', 'tfhe_blindRotateAndExtract', 'tfhe_bootstrap_woKS', 'tfhe_bootstrap')]
+    + [(KS, 'lweKeySwitch'), (KS, 'lweKeySwitchTranslate_fromArray')]
+    + [(LW, 'tLweExtractLweSampleIndex'), (LW, 'tLweExtractLweSample'), (LW, 'tLweExtractKey')]
+    + [(TG, f) for f in ('tGswTorus32PolynomialDecompH', 'tGswTLweDecompH', 'tGswExternMulToTLwe', 'tGswExternProduct', 'tGswMulByXaiMinusOne')]
+    + [('tgsw-fft-operations.cpp', 'tGswFFTExternMulToTLwe')]
+    + [(LF, f) for f in ('lweClear', 'lweCopy', 'lweNegate', 'lweNoiselessTrivial', 'lweAddTo', 'lweSubTo', 'lweAddMulTo', 'lweSubMulTo', 'lwePhase')]
+    + [(TL, f) for f in ('tLweClear', 'tLweCopy', 'tLweNoiselessTrivial', 'tLweAddTo', 'tLweSubTo', 'tLweAddMulTo', 'tLweSubMulTo', 'tLweMulByXaiMinusOne', 'tLweAddTTo')]
+    + [(TF, f) for f in ('torusPolynomialClear', 'torusPolynomialCopy', 'torusPolynomialAddTo', 'torusPolynomialSubTo', 'torusPolynomialAddMulZTo',
+                         'torusPolynomialSubMulZTo', 'torusPolynomialMulByXai', 'torusPolynomialMulByXaiMinusOne')]
+    + [(NF, f) for f in ('modSwitchFromTorus32', 'modSwitchToTorus32', 'approxPhase', 'dtot32', 't32tod')]
+)
+RNG_SYMBOLS = {'generator', 'uniformTorus32_distrib', 'uniformInt_distrib', 'gaussian32', 'torusPolynomialUniform', 'rand', 'random', 'srand',
+               'lweKeyGen', 'tLweKeyGen', 'tGswKeyGen', 'lweSymEncrypt', 'lweSymEncryptWithExternalNoise', 'tLweSymEncryptZero', 'tLweSymEncrypt',
+               'tLweSymEncryptT', 'tGswSymEncrypt', 'tGswSymEncryptInt', 'tGswEncryptZero', 'tGswEncryptB', 'tfhe_random_generator_setSeed',
+               'normal_distribution', 'uniform_int_distribution', 'lweCreateKeySwitchKey', 'tfhe_createLweBootstrappingKey'}
+
+
+def rng_scan(group):
+    out = []
+    for (f, fn) in EVAL_FUNCTIONS:
+        refs = X.references(f, fn)
+        bad = sorted(refs & RNG_SYMBOLS)
+        out.append(('%s.no_rng' % fn, not bad, 'static AST fact: %s references no random-generator symbol%s' % (fn, (' -- references ' + ', '.join(bad)) if bad else '')))
+    return out
+
+
+SAFETY_CLASSES = {'pointer_dereference', 'array_bounds', 'bounds', 'memory-leak', 'undefined-shift', 'division-by-zero', 'pointer_primitives',
+                  'pointer_arithmetic', 'precondition', 'NaN', 'overflow', 'unwind'}
+
+
+def sel_c15(g, o):
+    if o['cls'] in ('assigns', 'static'):
+        return True
+    if re.search(r'untouched|unchanged|restor|not touch|inputs? ', o['desc']):
+        return True
+    if 'DecompH' in g.name and o['cls'] == 'postcondition':
+        return True
+    return False
+
+
+def sel_c16(g, o):
+    if o['cls'] in SAFETY_CLASSES:
+        return True
+    if re.search(r'spec sanity|released|freed|scratch|holds n entries|in range|writable|OOB|size', o['desc']):
+        return True
+    return False
+
+
+def alloc_extract():
+    ex = [('lwesamples.cpp', 'LweSample::LweSample'), ('lwesamples.cpp', 'LweSample::~LweSample'), ('lwekey.cpp', 'LweKey::LweKey'), ('lwekey.cpp', 'LweKey::~LweKey'),
+          (MU, 'IntPolynomial::IntPolynomial'), (MU, 'IntPolynomial::~IntPolynomial'), (MU, 'TorusPolynomial::TorusPolynomial'), (MU, 'TorusPolynomial::~TorusPolynomial')]
+    for T in ['IntPolynomial', 'TorusPolynomial']:
+        for f in ['alloc_%s', 'alloc_%s_array', 'free_%s', 'free_%s_array', 'init_%s', 'init_%s_array', 'destroy_%s', 'destroy_%s_array',
+                  'new_%s', 'new_%s_array', 'delete_%s', 'delete_%s_array']:
+            ex.append((AG, f % T))
+    ex += [('tlwe.cpp', 'TLweKey::TLweKey'), ('tlwe.cpp', 'TLweKey::~TLweKey'), ('tlwe.cpp', 'TLweSample::TLweSample'), ('tlwe.cpp', 'TLweSample::~TLweSample'),
+           ('tgsw.cpp', 'TGswSample::TGswSample', 'decl_file=tgsw.h'), ('tgsw.cpp', 'TGswSample::~TGswSample', 'decl_file=tgsw.h'),
+           (LF, 'init_LweSample'), (LF, 'destroy_LweSample'), (LF, 'init_LweKey'), (LF, 'destroy_LweKey'),
+           (TL, 'init_TLweKey'), (TL, 'destroy_TLweKey'), (TL, 'init_TLweSample'), (TL, 'destroy_TLweSample'), (TG, 'init_TGswSample'), (TG, 'destroy_TGswSample')]
+    return ex
+
+
+def alloc_groups(tag, tier):
+    shapes = [(1, 2), (2, 3)] if tier == 'quick' else [(1, 1), (1, 2), (1, 3), (2, 2), (2, 3), (3, 2), (1, 8)]
+    return [Group('%s.lifecycle.k=%d.l=%d' % (tag, K, L), 'c16_alloc.c', 'h_alloc', extract=alloc_extract(), defines={'VERIF_K': K, 'VERIF_L': L},
+                  unwind=(K + 1) * L + 3, cbmc=['--memory-leak-check'], timeout=1800, instance={'k': K, 'l': L}) for (K, L) in shapes]
+
+
+def _retag(gs, tag):
+    out = []
+    for g in gs:
+        g.name = tag + '.' + g.name.split('.', 1)[1] if '.' in g.name else tag + '.' + g.name
+        out.append(g)
+    return out
+
+
+def c15_groups(tier):
+    gs = gate_groups('C15', tier)                                   # every gate x every aliasing pattern
+    gs += boot_groups('C15')
+    gs += [g for g in c08_groups(tier, 'C15') if 'translate' in g.name or 'lweKeySwitch' in g.name]
+    gs += [g for g in c12_groups(tier, 'C15') if 'DecompH' in g.name and ('lemma' not in g.name)]
+    gs += [g for g in tlwe_groups('C15', tier) if 'Extract' in g.name]
+    gs.append(StaticGroup('C15.static.no_rng', rng_scan))
+    return gs
+
+
+def c16_groups(tier):
+    gs = alloc_groups('C16', tier)
+    gs += boot_groups('C16')
+    gs += [g for g in c08_groups(tier, 'C16') if 'translate' in g.name]
+    gs += [g for g in c12_groups(tier, 'C16') if 'lemma' not in g.name]
+    gs += [g for g in lwe_groups('C16', tier) if not g.bounded]
+    gs += poly_mono_groups('C16') + [g for g in poly_cw_groups('C16') if '.p=' not in g.name or '.p=3' in g.name]
+    gs += [g for g in tlwe_groups('C16', 'quick') if '.p=' not in g.name or '.p=3' in g.name]
+    gs += gate_groups('C16', tier, aliases=(0,))
+    gs += c19_groups(tier, 'C16')
+    for km, fn in [(0, 'torusPolynomialMultKaratsuba')]:
+        gs.append(Group('C16.%s.bounded.N=16' % fn, 'c11_mult.c', 'h_b_karatsuba',
+                        extract=[(MU, 'torusPolynomialMultNaive_plain_aux'), (MU, 'Karatsuba_aux'), (MU, fn)],
+                        defines={'H_KARA': None, 'VERIF_N': 16, 'KMODE': km}, unwind=34, bounded=True, timeout=1800, backend='z3', cbmc=['--memory-leak-check']))
+    return gs
+
+
 PROPS = {
     'C13': {
         'groups': c13_groups,
@@ -380,6 +522,65 @@ PROPS = {
             'assumed contract of lweKeySwitch for MUX (C08)',
             '"both parameter sets, every FFT back end, both builds": covered only in that the gate layer is parameter- and back-end-independent code',
             'phase-level reading of the coordinate-wise affine form: induction on n, not machine-checked (DESIGN 2.3)',
+        ],
+        'trusted': [],
+    },
+    'C19': {
+        'groups': c19_groups,
+        'level': 'proof',
+        'explanation': 'One loop-free (constructor loops unwound to l <= 3) proof over all 2^32 values of lambda through the real selector, both static '
+                       'parameter constructors, the new_/alloc_/init_ wrappers and the four C++ constructors: case split, every documented field value, '
+                       'structural constraints, derived fields; both abort paths reachable and taken only for out-of-range lambda.',
+        'assumptions': STD_ASSUME + [
+            'pow(2.,-15) and pow(2.,-25) return the exact powers of two (assumed contract of libm)',
+            'die_dramatically aborts before anything else is observable (its body uses iostream / throw and is not extractable)',
+            'TfheGarbageCollector::register_param is a stub (std::vector)',
+            '"at least 12 standard deviations of decoding margin under the library\'s own noise formulas": not decided here (the formulas are not code of the library)',
+        ],
+        'trusted': [],
+    },
+    'C11': {
+        'groups': c11_groups,
+        'level': 'proof',
+        'explanation': 'Monomial products (X^a and X^a-1, every a in [0,2N)) and coefficient-wise operations: contracts on the real bodies for symbolic N; '
+                       'monomial algebra lemma over the postcondition index/sign function (X^a*X^b = X^(a+b mod 2N), X^N = -1). Schoolbook and Karatsuba '
+                       'products: bounded stand-ins against the ring definition (never counted as proved).',
+        'assumptions': STD_ASSUME + [
+            'schoolbook product: bounded stand-in, N in {1,2,4,8,16}(,32,64), coefficients fully symbolic (INT32_MIN included), z3',
+            'Karatsuba (plain / accumulate / subtract): bounded stand-in at N = 16 on symbolic basis pairs (X^i, c*X^j); the extension to all inputs by bilinearity of the routine is not machine-checked; fully symbolic Karatsuba is out of reach of every installed solver',
+            'monomial algebra lemma: N <= 2^16 (quick) / 2^20 (thorough)',
+            'subtract-and-multiply coefficient-wise variants: multiplier constants enumerated (see C14)',
+        ],
+        'trusted': [],
+    },
+    'C15': {
+        'groups': c15_groups,
+        'select': sel_c15,
+        'level': 'proof',
+        'explanation': 'The frame obligations (assigns-clause instrumentation of goto-instrument --dfcc: every write of a function under contract is checked '
+                       'against its assigns clause, which never names an input, key or parameter object) and the explicit "inputs untouched" / "restored" '
+                       'obligations of the gate, bootstrapping, key-switch, extraction and decomposition groups; every gate under all five aliasing patterns; '
+                       'no-RNG as a static AST fact (no evaluation function references the generator, a sampler or an encryption/key-generation routine).',
+        'assumptions': STD_ASSUME + [
+            'keys and inputs untouched INSIDE the FFT / assembly leaves (external product numerics, FFT transforms): not seen',
+            'no-RNG is a clang-AST reference scan over the evaluation functions listed in tools/props.py:EVAL_FUNCTIONS (direct references); it is a supporting static fact, not a CBMC obligation',
+            'only obligations of class assigns/frame/untouched/restored are counted for this property; the functional obligations of the same runs are reported under C01/C04/C08/C12/C14',
+        ],
+        'trusted': [],
+    },
+    'C16': {
+        'groups': c16_groups,
+        'select': sel_c16,
+        'level': 'proof',
+        'explanation': 'CBMC safety obligations (pointer dereference, bounds, invalid/freed pointer, shift width, division by zero, callee preconditions) '
+                       'and leak obligations (--memory-leak-check) of every function under contract, for symbolic n and N (so n > N, n = 1, odd n are inside) '
+                       'and enumerated k, l, Bgbit, t, basebit; allocation life cycle of every sample/key/polynomial type through the real constructors, '
+                       'destructors and the real template macro.',
+        'assumptions': STD_ASSUME + [
+            'reads of uninitialised memory: CBMC has no definedness tracking; not decided',
+            'thread-exit destructors of the thread_local FFT processors, the assembly kernels, serialization, garbage collector (std::vector): not reachable by the C front end',
+            'key-switch table: bounded in n (see C08)',
+            'FFT-domain objects (LagrangeHalfCPolynomial, TGswSampleFFT, LweBootstrappingKeyFFT construction): not under contract',
         ],
         'trusted': [],
     },
